@@ -21,7 +21,7 @@ from __future__ import annotations
 import ast
 from typing import Optional
 
-from ..engine.srcmodel import AnalysisError, ClassInfo, Model, dotted, stmt_text
+from ..engine.srcmodel import AnalysisError, ClassInfo, Model, dotted, stmt_text, walk_local
 from ..engine.report import RuleResult, Finding
 from .common import finding
 
@@ -704,6 +704,63 @@ def r20_11(ctx, counts) -> RuleResult:
         raise AnalysisError('apply_schema: the xsi:type lookup was not located')
     return res
 
+def r20_12(ctx, counts) -> RuleResult:
+    """union members are tried in declaration order: the candidate list is never reordered"""
+    model: Model = ctx.model
+    res = RuleResult(
+        'R20.12', 'CANDIDATE-ORDER-FIXED',
+        'An XSD union is ordered: a lexical form gets the type of the FIRST member that accepts '
+        'it ("2" under union(xs:decimal-derived, xs:int) is what the declaration order says). In '
+        'elementpath/decoder.py a list of candidate prototypes/decoders that a `for` loop tries in '
+        'turn is therefore not reordered or shortened: no insert/pop/remove/sort/reverse/append '
+        'call, subscript store or del on the iterated name anywhere in the function. A '
+        'move-to-front of the member that fitted the previous item makes the type of a list '
+        'item depend on its neighbours.')
+    mod = model.modules.get('elementpath.decoder')
+    if mod is None:
+        raise AnalysisError('elementpath/decoder.py vanished')
+    muts = {'insert', 'pop', 'remove', 'sort', 'reverse', 'append', 'extend', 'clear'}
+    n = 0
+    for f in sorted((g for g in model.all_functions() if g.module is mod), key=lambda q: q.key):
+        iterated = set()
+        for x in walk_local(f.node):
+            if isinstance(x, ast.For):
+                it = x.iter
+                if isinstance(it, ast.Call) and dotted(it.func) in ('enumerate', 'reversed', 'iter') \
+                        and it.args:
+                    it = it.args[0]
+                if isinstance(it, ast.Name):
+                    iterated.add(it.id)
+        if not iterated:
+            continue
+        n += 1
+        bad = []
+        for x in walk_local(f.node):
+            if isinstance(x, ast.Call) and isinstance(x.func, ast.Attribute) \
+                    and x.func.attr in muts and isinstance(x.func.value, ast.Name) \
+                    and x.func.value.id in iterated:
+                bad.append(x)
+            elif isinstance(x, (ast.Assign, ast.AugAssign, ast.Delete)):
+                tg = x.targets if not isinstance(x, ast.AugAssign) else [x.target]
+                for t in tg:
+                    if isinstance(t, ast.Subscript) and isinstance(t.value, ast.Name) \
+                            and t.value.id in iterated:
+                        bad.append(x)
+        res.instances.append(f'{f.key}: iterates {sorted(iterated)}; reordering/mutating calls on '
+                             f'them: {len(bad)}')
+        if not bad:
+            res.ok()
+        for x in bad:
+            res.fail(finding('R20.12', f, x, f'{stmt_text(x)[:30]} on an iterated candidate list',
+                             f'`{stmt_text(x)[:60]}` changes the list the decoder iterates to '
+                             f'try the member types in order: the member chosen for an item '
+                             f'then depends on the items decoded before it ("1.5 2 3" under '
+                             f'list(union(xs:int, xs:decimal)) types 2 and 3 as decimals)'))
+    counts['decoder_candidate_loops'] = n
+    if n < 1:
+        raise AnalysisError('no loop over a named candidate list located in the decoder')
+    return res
+
 
 def run(ctx) -> dict:
     model: Model = ctx.model
@@ -806,7 +863,7 @@ def run(ctx) -> dict:
     return {
         'results': [r1, r2, r20_3(ctx, counts), r20_4(ctx, counts), r20_5(ctx, counts),
                     r20_6(ctx, counts), r20_7(ctx, counts), r20_8(ctx, counts),
-                    r20_9(ctx, counts), r20_10(ctx, counts), r20_11(ctx, counts),
+                    r20_9(ctx, counts), r20_10(ctx, counts), r20_11(ctx, counts), r20_12(ctx, counts),
                     _memo, _state], 'counts': counts,
         'explanation':
             'Only the table-shaped necessary condition of "the typed value is an instance of the '
